@@ -57,7 +57,7 @@ pub const TABLE: &[(&str, &[(&str, f64)])] = &[
     ("C13", &[("votes", 1.0), ("nft_votes", 1.0)]),
     ("C14", &[("spending", 1.0), ("thresholds", 1.0)]),
     ("C15", &[("identity", 1.0)]),
-    ("C16", &[("gates", 1.0), ("upgrade", 1.0), ("capped", 1.0), ("fungible", 0.5)]),
+    ("C16", &[("gates", 1.0), ("upgrade", 1.0), ("capped", 1.0), ("fungible", 0.5), ("rwa", 0.25)]),
     ("C17", &[("merkle", 1.0), ("merkle_indexed", 1.0), ("merkle_voting", 1.0)]),
     ("C19", &[("forwarder", 1.0)]),
     ("C20", &[("registries", 1.0), ("irs", 1.0), ("smart_account", 0.5), ("rwa_real", 0.5), ("identity", 0.25)]),
